@@ -37,6 +37,7 @@ GEN_REL = "LlgoVerif/Gen/C11Atomics.lean"
 LAT = ('"github.com/goplus/llgo/runtime/internal/lib/sync/atomic"', '"%s/latomic"' % native.VN, "atomic")
 SEMA_SRC = "runtime/internal/lib/runtime/sema_llgo.go"
 
+MAX_UNCLASSIFIED = 8      # replay files written per run for failing inputs of a class that is not a known finding
 K_TICKET = "notifylist:wait-returns-with-notify-below-ticket"
 K_CAS = "sema:sleeps-after-failed-cas-with-positive-count"
 
@@ -395,9 +396,9 @@ DFS_QUICK = [  # (sems, progs, max runs, max steps, spurious budget)
     ("3", "A0;A0;A0", 2000, 60, 0), ("2", "A0;A0;A0", 4000, 60, 1), ("0", "A0;R0.R0;A0", 6000, 60, 0), ("0", "A0.W0;R0.O0", 4000, 60, 0),
     ("0", "W0.A0;O0.R0;B0", 4000, 60, 0),
 ]
-DFS_THOROUGH = [(s, p, 30000, 80, b) for (s, p, _, _, b) in DFS_QUICK] + [
-    ("1", "A0.R0;A0.R0;A0.R0", 30000, 90, 0), ("0", "W0;W0;O0;O0", 30000, 80, 0), ("0", "W0;W0;W0;B0", 30000, 80, 0),
-    ("2", "A0;A0;A0;R0", 30000, 80, 1), ("0", "A0;A0;R0.R0", 30000, 80, 1), ("0", "W0.W0;O0.B0", 30000, 80, 1),
+DFS_THOROUGH = [(s, p, 40000, 80, b) for (s, p, _, _, b) in DFS_QUICK] + [
+    ("1", "A0.R0;A0.R0;A0.R0", 40000, 90, 0), ("0", "W0;W0;O0;O0", 40000, 80, 0), ("0", "W0;W0;W0;B0", 40000, 80, 0),
+    ("2", "A0;A0;A0;R0", 40000, 80, 1), ("0", "A0;A0;R0.R0", 40000, 80, 1), ("0", "W0.W0;O0.B0", 40000, 80, 1),
 ]
 
 
@@ -413,6 +414,10 @@ def run(ctx, args):
     N = rng.choice([2, 3, 5, 8, 13, 24, 33, 64])
     K = max(20, (20000 if quick else 400000) // N)
     S = 20000 if quick else 400000
+    if args.replay:
+        rp0 = json.load(open(args.replay))["replay"]
+        if "N" in rp0 and "K" in rp0:
+            N, K, S = rp0["N"], rp0["K"], rp0.get("S", S)
     import threading
     ir_ready = threading.Event()
     res = {"ir": None, "ir_error": None, "runs": {}, "t": {}}
@@ -467,10 +472,12 @@ def run(ctx, args):
 
     # ---- (3b) the runs: corpus, exhaustive small configurations, random programs x random schedules
     runs = []      # (origin, sems, nlists, progs, raw harness answer)
-    if args.replay:
-        rp = json.load(open(args.replay))["replay"]
+    rp = json.load(open(args.replay))["replay"] if args.replay else None
+    if rp is not None and "schedule" in rp:
         o, _, _ = real(["sched %s %d %s %s" % (rp["sems"], rp["nlists"], rp["progs"], rp["schedule"])])
         runs.append(("replay", rp["sems"], rp["nlists"], rp["progs"], o[0]))
+    elif rp is not None:
+        pass        # a layered request or an e2e value: replayed below / by the stress programs (N, K, S taken from the file)
     else:
         cl = corpus["witnesses"] + corpus["boundary"]
         o, _, err = real([sched_line(w) for w in cl])
@@ -504,14 +511,14 @@ def run(ctx, args):
         for (sems, nadr, progs), a in zip(metas, o):
             runs.append(("random", sems, nadr, progs, a))
 
-    # ---- (A) regenerate the atomics table as soon as the -O0 IR is there (the worker goes on with -O2 and the runs)
     # ---- (B-N') Go's own sync primitives layered on the copied semaphore (stretch)
     try:
-        layered_stats = layered(ctx, quick, ticket_less, cas_retry)
+        layered_stats = layered(ctx, quick, ticket_less, cas_retry, only=(rp or {}).get("request"))
     except HarnessBuildError as e:
         layered_stats = {"skipped": "layered harness does not build: " + str(e)[-300:]}
         ctx.log("layered sync harness not built:", str(e)[-600:])
 
+    # ---- (A) regenerate the atomics table as soon as the -O0 IR is there (the worker goes on with -O2 and the runs)
     ctx.log("real code: %d runs recorded; waiting for the -O0 IR" % len(runs))
     ir_ready.wait()
     ir_text, ir_err = res["ir"], res["ir_error"]
@@ -602,6 +609,10 @@ def run(ctx, args):
                 stats["spec_failures"] += 1
                 rp = {"sems": sems, "nlists": nl, "progs": progs, "schedule": sc, "end": end, "detail": detail,
                       "trace_tail": tr.split("|")[-6:]}
+                if key is None:
+                    stats["unclassified_failures"] = stats.get("unclassified_failures", 0) + 1
+                    if stats["unclassified_failures"] > MAX_UNCLASSIFIED:
+                        continue          # counted; the first ones carry the replay
                 ctx.report(key or ("native:%s:%s:%s" % (sems, progs, sc))[:300], what, rp)
             if len(samples) < 3 and origin in ("corpus", "dfs", "random") and (ri % 997 == 0 or origin == "corpus" and ri < 2):
                 samples.append({"origin": origin, "sems": sems, "progs": progs, "schedule": sc, "end": end, "last_step": tr.split("|")[-1]})
@@ -621,7 +632,7 @@ def run(ctx, args):
             batch = [("dfs", s_, 1, p_, a_[4:]) for a_ in o if a_.startswith("run ")]
             for i in range(0, len(batch), CH):
                 process(batch[i:i + CH])
-        for _ in range(25):
+        for _ in range(30):
             lines, metas = [], []
             for i in range(CH):
                 sems, nadr, progs = gen_prog_set(rng, i % 4 == 3)
@@ -662,13 +673,21 @@ def run(ctx, args):
             ctx.report("e2e:%s:timeout" % opt, "the llgo-compiled stress program (N=%d goroutines, K=%d) did not finish within the timeout at %s; "
                        "last value printed: %s" % (N, K, opt, list(got)[-1:] or "none"), {"N": N, "K": K, "S": S, "opt": opt, "printed": got})
             continue
+        missing = [n_ for n_ in want if n_ not in got]
+        if missing:
+            e2e_failed = True
+            ctx.report("e2e:%s:incomplete" % opt, "the llgo-compiled stress program at %s ended with status %r after printing %d of %d values "
+                       "(first missing: %s; N=%d goroutines, K=%d)" % (opt, r["rc"], len(got), len(want), missing[0], N, K),
+                       {"N": N, "K": K, "S": S, "opt": opt, "rc": r["rc"], "missing": missing, "stderr_tail": r["stderr"][-800:]})
         for name, w in want.items():
+            if name not in got:
+                continue
             n_e2e += 1
-            if got.get(name) != w:
+            if got[name] != w:
                 e2e_failed = True
                 ctx.report("e2e:%s:%s" % (name, opt), "stress program at %s: %s = %r, the Go specification fixes %r (N=%d goroutines, K=%d operations each)" %
-                           (opt, name, got.get(name), w, N, K), {"N": N, "K": K, "S": S, "opt": opt, "name": name, "got": got.get(name), "want": w,
-                                                                   "rc": r["rc"], "stderr_tail": r["stderr"][-600:]})
+                           (opt, name, got[name], w, N, K), {"N": N, "K": K, "S": S, "opt": opt, "name": name, "got": got[name], "want": w,
+                                                             "rc": r["rc"], "stderr_tail": r["stderr"][-600:]})
     # ---- verdicts
     # tie (A)
     bad_rows = [e for e in entries if not py_entry_ok(e)]
@@ -846,7 +865,7 @@ def judge_layered(scn, n, end, evs, final):
     return fails
 
 
-def layered(ctx, quick, ticket_less, cas_retry):
+def layered(ctx, quick, ticket_less, cas_retry, only=None):
     rng = ctx.rng
     binp = build_layered(ctx)
     n_runs = 1600 if quick else 60000
@@ -859,6 +878,9 @@ def layered(ctx, quick, ticket_less, cas_retry):
         ns = rng.choice([0, 0, 2000000]) if scn in ("mutex", "rwmutex") else 0
         lines.append("sync %s %d %d %d %d %d %d" % (scn, n, it, rng.getrandbits(40) + 1, 6000, rng.choice([0, 0, 20, 60]), ns))
         metas.append((scn, n, it))
+    if only:
+        f_ = only.split()
+        lines, metas = [only], [(f_[1], int(f_[2]), int(f_[3]))]
     out, rc, err = run_lines([binp], lines, timeout=3000)
     if len(out) != len(lines):
         raise RuntimeError("layered sync harness died: %d/%d answers: %s" % (len(out), len(lines), err[-1500:]))
@@ -876,6 +898,10 @@ def layered(ctx, quick, ticket_less, cas_retry):
         st["events"] += len(evs)
         for (key, what) in judge_layered(scn, n, end, evs, final):
             st["contract_failures"] += 1
+            if key is None:
+                st["unclassified_failures"] = st.get("unclassified_failures", 0) + 1
+                if st["unclassified_failures"] > MAX_UNCLASSIFIED:
+                    continue
             ctx.report(key or ("layered:" + line)[:300], what + "  [Go's own sync sources on the verbatim sema_llgo.go, request `%s`]" % line,
                        {"request": line, "end": end, "events": e[-1500:], "final": final})
     return st
